@@ -1,6 +1,7 @@
 import ActixModel.Proofs.Files
 import ActixModel.Proofs.PathBuf
 import ActixModel.Proofs.Range
+import ActixModel.Proofs.RangeSpec
 /-
 C16 — static file serving stays inside its root and answers ranges exactly.
 
@@ -262,6 +263,128 @@ example : intoResponse ⟨10, some ⟨false, [1]⟩, some 100⟩ { ifNoneMatch :
 
 example : intoResponse ⟨10, none, none⟩ {} (.str (ascii ['b', 'y', 't', 'e', 's', '=', '2', '-', '5'])) = .partialContent ⟨2, 5, 10⟩ 2 4 := by
   decide
+
+/-! ### against the grammar of RFC 7233 (canonical shapes, arbitrary digit strings) -/
+
+theorem mem_dash_digits {A B : Bytes} (hA : IsDigits A) (hB : IsDigits B) {b : UInt8}
+    (hb : b ∈ A ++ 0x2D :: B) : isDigit b = true ∨ b = 0x2D := by
+  simp only [List.mem_append, List.mem_cons] at hb
+  rcases hb with h | h | h
+  · exact Or.inl (hA.2 b h)
+  · exact Or.inr h
+  · exact Or.inl (hB.2 b h)
+
+theorem dash_digits_no_comma {s : Bytes} (h : ∀ b ∈ s, isDigit b = true ∨ b = 0x2D) : (0x2C : UInt8) ∉ s := by
+  intro hm
+  rcases h _ hm with h | h
+  · exact absurd h (by decide)
+  · exact absurd h (by decide)
+
+theorem dash_digits_no_ws {s : Bytes} (h : ∀ b ∈ s, isDigit b = true ∨ b = 0x2D) : ∀ b ∈ s, isWs b = false := by
+  intro b hb
+  rcases h b hb with h | h
+  · exact digit_not_ws h
+  · rw [h]; decide
+
+/-- **C16_range_first_last_rfc**: `bytes=A-B` for *any* digit strings `A`, `B` (leading zeros
+allowed, any length) with values `a ≤ b`, `b < 2^64`: if `a < len` the answer (when no precondition
+intervenes) is 206 for exactly `a ..= min(b, len-1)` — RFC 7233 §2.1, last-byte-pos clamped to the
+representation; if `a ≥ len` it is 416. -/
+theorem C16_range_first_last_rfc (m : FileMeta) (c : Cond) (A B : Bytes) (hA : IsDigits A) (hB : IsDigits B)
+    (hlen : m.len ≤ u64Max) (hab : decVal A ≤ decVal B) (hb : decVal B ≤ u64Max)
+    (hpf : preconditionFailed m c = false) (hnm : notModified m c = false) :
+    intoResponse m c (.str (bytesPrefix ++ (A ++ 0x2D :: B))) =
+      if decVal A < m.len then
+        .partialContent ⟨decVal A, min (decVal B) (m.len - 1), m.len⟩ (decVal A) (min (decVal B) (m.len - 1) - decVal A + 1)
+      else .rangeNotSatisfiable m.len := by
+  have hmem := fun b => @mem_dash_digits A B hA hB b
+  unfold intoResponse intoResponseG
+  simp only
+  rw [parse_one_spec _ _ (by simp) (dash_digits_no_comma hmem) (dash_digits_no_ws hmem),
+    single_first_last A B hA hB m.len hlen]
+  have h1 : ¬ decVal A > u64Max := by omega
+  have h3 : ¬ decVal B > u64Max := by omega
+  have h4 : ¬ decVal A > decVal B := by omega
+  simp only [h1, h3, h4, if_false, hpf, hnm]
+  by_cases h2 : decVal A < m.len
+  · have h2' : ¬ decVal A ≥ m.len := by omega
+    have e1 : ¬ (min (decVal B) (m.len - 1) - decVal A + 1 = 0) := by omega
+    have e2 : decVal A + (min (decVal B) (m.len - 1) - decVal A + 1) ≤ u64Max := by omega
+    have e3 : 1 ≤ decVal A + (min (decVal B) (m.len - 1) - decVal A + 1) := by omega
+    have e4 : decVal A + (min (decVal B) (m.len - 1) - decVal A + 1) - 1 = min (decVal B) (m.len - 1) := by omega
+    simp [h2, h2', e1, lastBytePos, checkedAdd, checkedSub, e2, e3, e4]
+  · have h2' : decVal A ≥ m.len := by omega
+    simp [h2, h2']
+
+/-- **C16_range_open_rfc**: `bytes=A-` with value `a < 2^64`: 206 for `a ..= len-1` if `a < len`, else 416. -/
+theorem C16_range_open_rfc (m : FileMeta) (c : Cond) (A : Bytes) (hA : IsDigits A)
+    (hlen : m.len ≤ u64Max) (ha : decVal A ≤ u64Max)
+    (hpf : preconditionFailed m c = false) (hnm : notModified m c = false) :
+    intoResponse m c (.str (bytesPrefix ++ (A ++ [0x2D]))) =
+      if decVal A < m.len then .partialContent ⟨decVal A, m.len - 1, m.len⟩ (decVal A) (m.len - decVal A)
+      else .rangeNotSatisfiable m.len := by
+  have hmem : ∀ b ∈ A ++ [0x2D], isDigit b = true ∨ b = 0x2D := by
+    intro b hb
+    simp only [List.mem_append, List.mem_cons, List.not_mem_nil, or_false] at hb
+    rcases hb with h | h
+    · exact Or.inl (hA.2 b h)
+    · exact Or.inr h
+  unfold intoResponse intoResponseG
+  simp only
+  rw [parse_one_spec _ _ (by simp) (dash_digits_no_comma hmem) (dash_digits_no_ws hmem), single_first_open A hA m.len]
+  have h1 : ¬ decVal A > u64Max := by omega
+  simp only [h1, if_false, hpf, hnm]
+  by_cases h2 : decVal A < m.len
+  · have h2' : ¬ decVal A ≥ m.len := by omega
+    have e1 : ¬ (m.len - decVal A = 0) := by omega
+    have e2 : decVal A + (m.len - decVal A) ≤ u64Max := by omega
+    have e3 : 1 ≤ decVal A + (m.len - decVal A) := by omega
+    have e4 : decVal A + (m.len - decVal A) - 1 = m.len - 1 := by omega
+    simp [h2, h2', e1, lastBytePos, checkedAdd, checkedSub, e2, e3, e4]
+  · have h2' : decVal A ≥ m.len := by omega
+    simp [h2, h2']
+
+/-- **C16_range_suffix_rfc**: `bytes=-N` with value `0 < n < 2^64` on a non-empty file: 206 for the
+last `min(n, len)` bytes; `n = 0` or an empty file: 416 (the latter is the repaired F7). -/
+theorem C16_range_suffix_rfc (m : FileMeta) (c : Cond) (N : Bytes) (hN : IsDigits N)
+    (hlen : m.len ≤ u64Max) (hn : decVal N ≤ u64Max)
+    (hpf : preconditionFailed m c = false) (hnm : notModified m c = false) :
+    intoResponse m c (.str (bytesPrefix ++ (0x2D :: N))) =
+      if decVal N = 0 ∨ m.len = 0 then .rangeNotSatisfiable m.len
+      else .partialContent ⟨m.len - min (decVal N) m.len, m.len - 1, m.len⟩
+        (m.len - min (decVal N) m.len) (min (decVal N) m.len) := by
+  have hmem : ∀ b ∈ (0x2D : UInt8) :: N, isDigit b = true ∨ b = 0x2D := by
+    intro b hb
+    simp only [List.mem_cons] at hb
+    rcases hb with h | h
+    · exact Or.inr h
+    · exact Or.inl (hN.2 b h)
+  unfold intoResponse intoResponseG
+  simp only
+  rw [parse_one_spec _ _ (by simp) (dash_digits_no_comma hmem) (dash_digits_no_ws hmem), single_suffix N hN m.len]
+  have h1 : ¬ decVal N > u64Max := by omega
+  simp only [h1, if_false, hpf, hnm]
+  by_cases h2 : decVal N = 0
+  · simp [h2]
+  · simp only [h2, if_false, false_or]
+    by_cases h3 : m.len = 0
+    · simp [h3]
+    · have e1 : ¬ (min (decVal N) m.len = 0) := by omega
+      have e2 : m.len - min (decVal N) m.len + min (decVal N) m.len ≤ u64Max := by omega
+      have e3 : 1 ≤ m.len - min (decVal N) m.len + min (decVal N) m.len := by omega
+      have e4 : m.len - min (decVal N) m.len + min (decVal N) m.len - 1 = m.len - 1 := by omega
+      simp [h3, e1, lastBytePos, checkedAdd, checkedSub, e2, e3, e4]
+
+/-- the digit-string hypotheses are satisfiable; `0007-0009` on a 9-byte file is `7 ..= 8` -/
+example : IsDigits (ascii ['0', '0', '0', '7']) ∧ decVal (ascii ['0', '0', '0', '7']) = 7 := by
+  refine ⟨⟨by decide, by decide⟩, by decide⟩
+
+/-- **C16_parse_u64_exact**: the `checked_mul`/`checked_add` loop computes the decimal value of
+every digit string, and fails exactly when the value does not fit 64 bits (no wrap-around, no
+spurious failure on leading zeros). -/
+theorem C16_parse_u64_exact (ds : Bytes) (hd : IsDigits ds) :
+    parseU64 ds = if decVal ds ≤ u64Max then some (decVal ds) else none :=
+  parseU64_exact ds hd
 
 /-- **C16_no_range_total**: without a `Range` header the answer is the full 200, 304 or 412; with a
 `Range` value that is not a visible-ASCII string it is 400 (the one outcome outside the
